@@ -1,5 +1,6 @@
 import Tmcg.Model.CoinFlip
 import TmcgProofs.Group
+import Mathlib.Tactic.NormNum.Prime
 /-
   C17 (two-party part): the coin flip `JareckiLysyanskayaEDCF::Flip_twoparty` as modelled in
   `Tmcg.CoinFlip.flipTwoParty`.
@@ -31,19 +32,134 @@ variable {C : Crs}
 /-- the commitment as a field element -/
 noncomputable def com (C : Crs) [Fact (Nat.Prime (grp C).p.natAbs)] (a b : Int) : F (grp C) :=
   toF (grp C) C.g ^ a * toF (grp C) C.h ^ b
+/-! ### helpers -/
+
+theorem grp_p (C : Crs) : (grp C).p = C.p := rfl
+theorem grp_q (C : Crs) : (grp C).q = C.q := rfl
+theorem grp_g (C : Crs) : (grp C).g = C.g := rfl
+
+theorem natAbs_lt_q {G : Group} (hG : ValidGroup G) {x : Int} (h : 0 ≤ x ∧ x < G.q) :
+    x.natAbs < G.q.natAbs := by
+  have := hG.q_pos; omega
+
+section
+variable {G : Group} [Fact (Nat.Prime G.p.natAbs)]
+
+theorem ne_zero_of_pow_q (hG : ValidGroup G) {a : F G} (h : a ^ G.q.natAbs = 1) : a ≠ 0 := by
+  rintro rfl
+  rw [zero_pow hG.q_prime.ne_zero] at h
+  exact zero_ne_one h
+
+theorem pos_of_toF_ne_zero {a : Int} (h0 : 0 ≤ a) (h : toF G a ≠ 0) : 0 < a := by
+  rcases Int.lt_or_eq_of_le h0 with h1 | h1
+  · exact h1
+  · subst h1; exact absurd (by unfold toF; simp) h
+
+/-- `g^m = 1` only for multiples of `q` -/
+theorem g_zpow_eq_one (hG : ValidGroup G) (m : Int) (h : toF G G.g ^ m = 1) : G.q ∣ m := by
+  have hq := hG.q_pos
+  have h1 := zpow_mod_q hG (toF G G.g) (g_pow_q hG) (g_ne_zero hG) m
+  rw [h] at h1
+  have hr0 : 0 ≤ m % G.q := Int.emod_nonneg _ (ne_of_gt hq)
+  have hr1 : m % G.q < G.q := Int.emod_lt_of_pos _ hq
+  rw [← pow_natAbs_of_nonneg _ hr0] at h1
+  have := g_pow_inj hG (t := (m % G.q).natAbs) (t' := 0) (by omega) (by omega) (by simpa using h1)
+  exact Int.dvd_of_emod_eq_zero (by omega)
+
+/-- powers of `g` are equal iff the exponents agree modulo `q` -/
+theorem g_zpow_eq_iff (hG : ValidGroup G) (m n : Int) :
+    toF G G.g ^ m = toF G G.g ^ n ↔ m ≡ n [ZMOD G.q] := by
+  constructor
+  · intro h
+    have h1 : toF G G.g ^ (n - m) = 1 := by
+      rw [zpow_sub₀ (g_ne_zero hG), h, div_self (zpow_ne_zero _ (g_ne_zero hG))]
+    exact Int.modEq_iff_dvd.mpr (g_zpow_eq_one hG _ h1)
+  · intro h
+    rw [← zpow_mod_q hG _ (g_pow_q hG) (g_ne_zero hG) m,
+      ← zpow_mod_q hG _ (g_pow_q hG) (g_ne_zero hG) n, h]
+
+/-- either exponentiation routine, selected by the timing-protection flag -/
+theorem sel_val (hG : ValidGroup G) (T : Table) (b e : Int) (hT : IsTable G T b)
+    (hb : toF G b ≠ 0) (he : e.natAbs < G.q.natAbs) (prot : Bool) :
+    ∃ r, (if prot then fspowm T b e G.p else fpowm T b e G.p) = .ok r ∧ 0 ≤ r ∧ r < G.p ∧
+      toF G r = toF G b ^ e := by
+  cases prot
+  · simpa using fpowm_val hG T b e hT hb he
+  · simpa using fspowm_val hG T b e hT hb he
+
+end
+
+theorem cg_ne_zero (hC : ValidCrs C) [Fact (Nat.Prime (grp C).p.natAbs)] :
+    toF (grp C) C.g ≠ 0 := g_ne_zero hC.valid
+
+theorem cg_pow_q (hC : ValidCrs C) [Fact (Nat.Prime (grp C).p.natAbs)] :
+    toF (grp C) C.g ^ C.q.natAbs = 1 := g_pow_q hC.valid
+
+theorem h_ne_zero (hC : ValidCrs C) [Fact (Nat.Prime (grp C).p.natAbs)] :
+    toF (grp C) C.h ≠ 0 :=
+  ne_zero_of_pow_q hC.valid hC.h_mem.2.2
+
+/-- `h` is a power of `g` -/
+theorem h_log (hC : ValidCrs C) [Fact (Nat.Prime (grp C).p.natAbs)] :
+    ∃ e : Nat, e < C.q.natAbs ∧ toF (grp C) C.h = toF (grp C) C.g ^ (e : Int) := by
+  obtain ⟨e, he, h⟩ := exists_log hC.valid _ hC.h_mem.2.2
+  exact ⟨e, he, by rw [zpow_natCast]; exact h⟩
+
+/-- the commitment as a power of `g` -/
+theorem com_eq (hC : ValidCrs C) [Fact (Nat.Prime (grp C).p.natAbs)] {e : Nat}
+    (he : toF (grp C) C.h = toF (grp C) C.g ^ (e : Int)) (a b : Int) :
+    com C a b = toF (grp C) C.g ^ (a + e * b) := by
+  unfold com
+  rw [he, ← zpow_mul, ← zpow_add₀ (cg_ne_zero hC)]
+
+theorem com_ne_zero (hC : ValidCrs C) [Fact (Nat.Prime (grp C).p.natAbs)] (a b : Int) :
+    com C a b ≠ 0 :=
+  mul_ne_zero (zpow_ne_zero _ (cg_ne_zero hC)) (zpow_ne_zero _ (h_ne_zero hC))
+
+theorem com_pow_q (hC : ValidCrs C) [Fact (Nat.Prime (grp C).p.natAbs)] (a b : Int) :
+    com C a b ^ C.q.natAbs = 1 := by
+  obtain ⟨e, -, he⟩ := h_log hC
+  rw [com_eq hC he, ← zpow_natCast, ← zpow_mul, mul_comm, zpow_mul, zpow_natCast,
+    cg_pow_q hC, one_zpow]
+
+/-! ### the commitment -/
 
 /-- value of the model's `pedersen` (both flavours) for exponents of absolute value below `q` -/
 theorem pedersen_val (hC : ValidCrs C) [Fact (Nat.Prime (grp C).p.natAbs)] (a b : Int) (prot : Bool)
     (ha : a.natAbs < C.q.natAbs) (hb : b.natAbs < C.q.natAbs) :
     ∃ r, pedersen C a b prot = .ok r ∧ 0 ≤ r ∧ r < C.p ∧ toF (grp C) r = com C a b := by
-  sorry
+  have hG := hC.valid
+  obtain ⟨tg, htg⟩ := table_exists hG C.g
+  obtain ⟨th, hth⟩ := table_exists hG C.h
+  obtain ⟨x, hx, -, -, hxv⟩ := sel_val hG tg C.g a htg (g_ne_zero hG) ha prot
+  obtain ⟨y, hy, -, -, hyv⟩ := sel_val hG th C.h b hth (h_ne_zero hC) hb prot
+  change precompute C.g C.p (bitlen C.q) = .ok tg at htg
+  change precompute C.h C.p (bitlen C.q) = .ok th at hth
+  change (if prot = true then fspowm tg C.g a C.p else fpowm tg C.g a C.p) = .ok x at hx
+  change (if prot = true then fspowm th C.h b C.p else fpowm th C.h b C.p) = .ok y at hy
+  refine ⟨x * y % C.p, ?_, (emod_bounds hG _).1, (emod_bounds hG _).2, ?_⟩
+  · unfold pedersen
+    cases prot
+    · simp only [Bool.false_eq_true, if_false] at hx hy
+      simp only [htg, hth, hx, hy, bind, Except.bind, Bool.false_eq_true, if_false]
+    · simp only [if_true] at hx hy
+      simp only [htg, hth, hx, hy, bind, Except.bind, if_true]
+  · rw [← grp_p, toF_emod hG, toF_mul, hxv, hyv]; rfl
 
 /-- the commitment of an in-range pair is a group element (passes `CheckElement`) -/
 theorem pedersen_checkElement (hC : ValidCrs C) [Fact (Nat.Prime (grp C).p.natAbs)] (a b r : Int)
     (prot : Bool) (ha : a.natAbs < C.q.natAbs) (hb : b.natAbs < C.q.natAbs)
     (hr : pedersen C a b prot = .ok r) :
     checkElement C r = true := by
-  sorry
+  obtain ⟨r', hr', h0, h1, hv⟩ := pedersen_val hC a b prot ha hb
+  rw [hr] at hr'
+  cases hr'
+  unfold checkElement
+  refine (checkElement_iff (G := grp C) hC.valid r).mpr ⟨?_, h1, ?_⟩
+  · exact pos_of_toF_ne_zero h0 (by rw [hv]; exact com_ne_zero hC a b)
+  · rw [hv]; exact com_pow_q hC a b
+
+/-! ### the protocol -/
 
 /-- **agreement**: two honest parties with arbitrary coins in `[0, q)`, each fed the other's three
     lines, both succeed with the same coin `(c₀ + c₁) mod q` -/
@@ -58,7 +174,107 @@ theorem flip2_agree (hC : ValidCrs C) [Fact (Nat.Prime (grp C).p.natAbs)] (c0 h0
       o0.threw = false ∧ o1.threw = false ∧
       o0.actions = [.send C0, .recv C1, .send c0, .send h0, .recv c1, .recv h1] ∧
       o1.actions = [.send C1, .recv C0, .send c1, .send h1, .recv c0, .recv h0] := by
-  sorry
+  have hG := hC.valid
+  have a0 : c0.natAbs < C.q.natAbs := natAbs_lt_q (G := grp C) hG hc0
+  have b0 : h0.natAbs < C.q.natAbs := natAbs_lt_q (G := grp C) hG hh0
+  have a1 : c1.natAbs < C.q.natAbs := natAbs_lt_q (G := grp C) hG hc1
+  have b1 : h1.natAbs < C.q.natAbs := natAbs_lt_q (G := grp C) hG hh1
+  obtain ⟨C0, hC0, l0, u0, -⟩ := pedersen_val hC c0 h0 true a0 b0
+  obtain ⟨C1, hC1, l1, u1, -⟩ := pedersen_val hC c1 h1 true a1 b1
+  have e0 := pedersen_checkElement hC c0 h0 C0 true a0 b0 hC0
+  have e1 := pedersen_checkElement hC c1 h1 C1 true a1 b1 hC1
+  have m0 : C0 % C.p = C0 := Int.emod_eq_of_lt l0 u0
+  have m1 : C1 % C.p = C1 := Int.emod_eq_of_lt l1 u1
+  refine ⟨C0, C1,
+    ⟨[.send C0, .recv C1, .send c0, .send h0, .recv c1, .recv h1], some ((c0 + c1) % C.q), false⟩,
+    ⟨[.send C1, .recv C0, .send c1, .send h1, .recv c0, .recv h0], some ((c1 + c0) % C.q), false⟩,
+    hC0, hC1, ?_, ?_, ?_⟩
+  · unfold flipTwoParty
+    simp only [hC0, hC1, bind, Except.bind, pure, Except.pure, e1, m1, ge_iff_le,
+      Nat.not_le.mpr a1, Nat.not_le.mpr b1, if_false, Bool.not_true, Bool.false_eq_true,
+      ne_eq, not_true_eq_false]
+    rfl
+  · unfold flipTwoParty
+    simp only [hC0, hC1, bind, Except.bind, pure, Except.pure, e0, m0, ge_iff_le,
+      Nat.not_le.mpr a0, Nat.not_le.mpr b0, if_false, Bool.not_true, Bool.false_eq_true,
+      ne_eq, not_true_eq_false]
+    rfl
+  · simp [add_comm c1 c0]
+
+/-- the complete case tree of one run: which prefix of the peer's lines was consumed, and the
+    outcome in each case -/
+theorem flip2_cases (c hc : Int) (peer : List (Option Int)) (o : Outcome)
+    (h : flipTwoParty C c hc peer = .ok o) :
+    ∃ Ci, pedersen C c hc true = .ok Ci ∧
+     ((peer = [] ∨ ∃ r, peer = none :: r) ∧ o = ⟨[.send Ci, .recvFail], none, true⟩ ∨
+      ∃ Cj rest, peer = some Cj :: rest ∧
+       (checkElement C Cj = false ∧ o = ⟨[.send Ci, .recv Cj], none, false⟩ ∨
+        checkElement C Cj = true ∧
+         ((rest = [] ∨ ∃ r, rest = none :: r) ∧
+            o = ⟨[.send Ci, .recv Cj, .send c, .send hc, .recvFail], none, true⟩ ∨
+          ∃ aj rest2, rest = some aj :: rest2 ∧
+           (C.q.natAbs ≤ aj.natAbs ∧
+              o = ⟨[.send Ci, .recv Cj, .send c, .send hc, .recv aj], none, false⟩ ∨
+            aj.natAbs < C.q.natAbs ∧
+             ((rest2 = [] ∨ ∃ r, rest2 = none :: r) ∧
+                o = ⟨[.send Ci, .recv Cj, .send c, .send hc, .recv aj, .recvFail], none, true⟩ ∨
+              ∃ haj rest3, rest2 = some haj :: rest3 ∧
+               (C.q.natAbs ≤ haj.natAbs ∧
+                  o = ⟨[.send Ci, .recv Cj, .send c, .send hc, .recv aj, .recv haj], none, false⟩ ∨
+                haj.natAbs < C.q.natAbs ∧ ∃ lhs, pedersen C aj haj true = .ok lhs ∧
+                 (lhs ≠ Cj % C.p ∧
+                    o = ⟨[.send Ci, .recv Cj, .send c, .send hc, .recv aj, .recv haj], none, false⟩ ∨
+                  lhs = Cj % C.p ∧
+                    o = ⟨[.send Ci, .recv Cj, .send c, .send hc, .recv aj, .recv haj],
+                      some ((c + aj) % C.q), false⟩))))))) := by
+  unfold flipTwoParty at h
+  cases hped : pedersen C c hc true with
+  | error e => simp [hped, bind, Except.bind] at h
+  | ok Ci =>
+    refine ⟨Ci, rfl, ?_⟩
+    simp only [hped, bind, Except.bind, pure, Except.pure] at h
+    rcases peer with _ | ⟨_ | Cj, rest⟩
+    · left; simp at h; subst h; simp
+    · left; simp at h; subst h; simp
+    · right
+      refine ⟨Cj, rest, rfl, ?_⟩
+      simp only [] at h
+      cases hce : checkElement C Cj with
+      | false => left; simp [hce] at h; subst h; simp
+      | true =>
+        right
+        refine ⟨rfl, ?_⟩
+        simp only [hce, Bool.not_true, Bool.false_eq_true, if_false] at h
+        rcases rest with _ | ⟨_ | aj, rest2⟩
+        · left; simp at h; subst h; simp
+        · left; simp at h; subst h; simp
+        · right
+          refine ⟨aj, rest2, rfl, ?_⟩
+          simp only [] at h
+          by_cases haj : C.q.natAbs ≤ aj.natAbs
+          · left; simp [haj] at h; subst h; simp [haj]
+          · right
+            refine ⟨Nat.lt_of_not_le haj, ?_⟩
+            simp only [ge_iff_le, haj, if_false] at h
+            rcases rest2 with _ | ⟨_ | hj, rest3⟩
+            · left; simp at h; subst h; simp
+            · left; simp at h; subst h; simp
+            · right
+              refine ⟨hj, rest3, rfl, ?_⟩
+              simp only [] at h
+              by_cases hhj : C.q.natAbs ≤ hj.natAbs
+              · left; simp [hhj] at h; subst h; simp [hhj]
+              · right
+                refine ⟨Nat.lt_of_not_le hhj, ?_⟩
+                simp only [hhj, if_false] at h
+                cases hl : pedersen C aj hj true with
+                | error e => simp [hl] at h
+                | ok lhs =>
+                  refine ⟨lhs, rfl, ?_⟩
+                  simp only [hl] at h
+                  by_cases hm : lhs = Cj % C.p
+                  · right; simp [hm] at h; subst h; simp [hm]
+                  · left; simp [hm] at h; subst h; simp [hm]
 
 /-- **commit before reveal**, for every peer: the run starts by sending the own commitment
     (which depends on the own coins only), and the trace is one of
@@ -73,7 +289,24 @@ theorem flip2_order (c hc : Int) (peer : List (Option Int)) (o : Outcome)
        (∃ Cj rest, o.actions = .send Ci :: .recv Cj :: .send c :: .send hc :: rest ∧
           checkElement C Cj = true ∧ peer.head? = some (some Cj) ∧
           ∀ a ∈ rest, ∀ v, a ≠ .send v)) := by
-  sorry
+  obtain ⟨Ci, hCi, hcases⟩ := flip2_cases c hc peer o h
+  refine ⟨Ci, hCi, ?_⟩
+  rcases hcases with ⟨-, rfl⟩ | ⟨Cj, rest, rfl, hcases⟩
+  · left; exact ⟨rfl, rfl⟩
+  right
+  rcases hcases with ⟨hce, rfl⟩ | ⟨hce, hcases⟩
+  · left; exact ⟨Cj, rfl, hce, rfl⟩
+  right
+  rcases hcases with ⟨-, rfl⟩ | ⟨aj, rest2, rfl, hcases⟩
+  · exact ⟨Cj, [.recvFail], rfl, hce, rfl, by simp⟩
+  rcases hcases with ⟨-, rfl⟩ | ⟨-, hcases⟩
+  · exact ⟨Cj, [.recv aj], rfl, hce, rfl, by simp⟩
+  rcases hcases with ⟨-, rfl⟩ | ⟨hj, rest3, rfl, hcases⟩
+  · exact ⟨Cj, [.recv aj, .recvFail], rfl, hce, rfl, by simp⟩
+  rcases hcases with ⟨-, rfl⟩ | ⟨-, lhs, -, ⟨-, rfl⟩ | ⟨-, rfl⟩⟩
+  · exact ⟨Cj, [.recv aj, .recv hj], rfl, hce, rfl, by simp⟩
+  · exact ⟨Cj, [.recv aj, .recv hj], rfl, hce, rfl, by simp⟩
+  · exact ⟨Cj, [.recv aj, .recv hj], rfl, hce, rfl, by simp⟩
 
 /-- **exact acceptance condition**: a coin is returned iff the peer's three lines are a group
     element, and an in-range opening of exactly that element; the coin is then the sum -/
@@ -83,7 +316,41 @@ theorem flip2_accept_iff (c hc : Int) (peer : List (Option Int)) (o : Outcome) (
       ∃ Cj aj haj rest, peer = some Cj :: some aj :: some haj :: rest ∧
         checkElement C Cj = true ∧ aj.natAbs < C.q.natAbs ∧ haj.natAbs < C.q.natAbs ∧
         pedersen C aj haj true = .ok (Cj % C.p) ∧ v = (c + aj) % C.q := by
-  sorry
+  obtain ⟨Ci, hCi, hcases⟩ := flip2_cases c hc peer o h
+  rcases hcases with ⟨hp, rfl⟩ | ⟨Cj, rest, rfl, hcases⟩
+  · rcases hp with rfl | ⟨r, rfl⟩ <;> simp
+  rcases hcases with ⟨hce, rfl⟩ | ⟨hce, hcases⟩
+  · simp [hce]
+  rcases hcases with ⟨hp, rfl⟩ | ⟨aj, rest2, rfl, hcases⟩
+  · rcases hp with rfl | ⟨r, rfl⟩ <;> simp
+  rcases hcases with ⟨hq, rfl⟩ | ⟨haj, hcases⟩
+  · simp only [reduceCtorEq, false_iff]
+    rintro ⟨Cj', aj', haj', rest', hpe, -, hlt, -⟩
+    simp only [List.cons.injEq, Option.some.injEq] at hpe
+    obtain ⟨-, rfl, -⟩ := hpe
+    omega
+  rcases hcases with ⟨hp, rfl⟩ | ⟨hj, rest3, rfl, hcases⟩
+  · rcases hp with rfl | ⟨r, rfl⟩ <;> simp
+  rcases hcases with ⟨hq, rfl⟩ | ⟨hhj, lhs, hl, ⟨hne, rfl⟩ | ⟨rfl, rfl⟩⟩
+  · simp only [reduceCtorEq, false_iff]
+    rintro ⟨Cj', aj', haj', rest', hpe, -, -, hlt, -⟩
+    simp only [List.cons.injEq, Option.some.injEq] at hpe
+    obtain ⟨-, -, rfl, -⟩ := hpe
+    omega
+  · simp only [reduceCtorEq, false_iff]
+    rintro ⟨Cj', aj', haj', rest', hpe, -, -, -, hped, -⟩
+    simp only [List.cons.injEq, Option.some.injEq] at hpe
+    obtain ⟨rfl, rfl, rfl, -⟩ := hpe
+    rw [hl] at hped
+    exact hne (by injection hped)
+  · constructor
+    · intro hv
+      simp only [Option.some.injEq] at hv
+      exact ⟨Cj, aj, hj, rest3, rfl, hce, haj, hhj, hl, hv.symm⟩
+    · rintro ⟨Cj', aj', haj', rest', hpe, -, -, -, -, hv⟩
+      simp only [List.cons.injEq, Option.some.injEq] at hpe
+      obtain ⟨rfl, rfl, rfl, -⟩ := hpe
+      simp [hv]
 
 /-- an opening that does not match the commitment received earlier is rejected -/
 theorem flip2_bad_opening_rejected (hC : ValidCrs C) [Fact (Nat.Prime (grp C).p.natAbs)]
@@ -91,7 +358,19 @@ theorem flip2_bad_opening_rejected (hC : ValidCrs C) [Fact (Nat.Prime (grp C).p.
     (h : flipTwoParty C c hc (some Cj :: some aj :: some haj :: rest) = .ok o)
     (hbad : toF (grp C) Cj ≠ com C aj haj) :
     o.result = none := by
-  sorry
+  cases hres : o.result with
+  | none => rfl
+  | some v =>
+    exfalso
+    obtain ⟨Cj', aj', haj', rest', hpe, -, ha, hb, hped, -⟩ :=
+      (flip2_accept_iff c hc _ o v h).mp hres
+    simp only [List.cons.injEq, Option.some.injEq] at hpe
+    obtain ⟨rfl, rfl, rfl, -⟩ := hpe
+    obtain ⟨r, hr, -, -, hv⟩ := pedersen_val hC aj haj true ha hb
+    rw [hped] at hr
+    cases hr
+    apply hbad
+    rw [← hv, ← grp_p, toF_emod hC.valid]
 
 /-- **binding**: two accepted openings of the same commitment with different shares (mod `q`)
     reveal the discrete logarithm of `h` to base `g`; so a peer who can open its commitment in two
@@ -101,21 +380,65 @@ theorem pedersen_binding (hC : ValidCrs C) [Fact (Nat.Prime (grp C).p.natAbs)] (
     ¬ (b ≡ b' [ZMOD C.q]) ∧
     ∃ x : Int, 0 ≤ x ∧ x < C.q ∧ (x * (b' - b) ≡ a - a' [ZMOD C.q]) ∧
       toF (grp C) C.g ^ x = toF (grp C) C.h := by
-  sorry
+  obtain ⟨e, he, hlog⟩ := h_log hC
+  rw [com_eq hC hlog, com_eq hC hlog] at heq
+  have hmod : a + e * b ≡ a' + e * b' [ZMOD C.q] := (g_zpow_eq_iff (G := grp C) hC.valid _ _).mp heq
+  have hq := hC.valid.q_pos
+  change 0 < C.q at hq
+  refine ⟨?_, e, by omega, by omega, ?_, hlog.symm⟩
+  · intro hb
+    exact hne (Int.ModEq.add_right_cancel (hb.mul_left e) hmod)
+  · have h1 := Int.modEq_iff_dvd.mp hmod
+    apply Int.modEq_iff_dvd.mpr
+    have : a - a' - e * (b' - b) = -(a' + e * b' - (a + e * b)) := by ring
+    rw [this]
+    exact (dvd_neg).mpr h1
 
 /-- **hiding**: if `h` generates the group (`h ≠ 1`), the commitment sent in the first move is
     consistent with every share: for every `c'` there is a randomiser giving the same commitment -/
 theorem pedersen_hiding (hC : ValidCrs C) [Fact (Nat.Prime (grp C).p.natAbs)] (hh : C.h ≠ 1)
     (c hc c' : Int) :
     ∃ hc' : Int, 0 ≤ hc' ∧ hc' < C.q ∧ com C c' hc' = com C c hc := by
-  sorry
+  have hG := hC.valid
+  obtain ⟨e, he, hlog⟩ := h_log hC
+  have hq := hG.q_pos
+  change 0 < C.q at hq
+  have hqa : ((C.q.natAbs : Nat) : Int) = C.q := natAbs_q (G := grp C) hG
+  have he0 : e ≠ 0 := by
+    rintro rfl
+    apply hh
+    have h1 : toF (grp C) C.h = toF (grp C) 1 := by rw [hlog, toF_one]; simp
+    exact eq_of_toF_eq hG ⟨hC.h_mem.1.le, hC.h_mem.2.1⟩ ⟨by norm_num, one_lt_p hG⟩ h1
+  have hcop : Nat.Coprime e C.q.natAbs :=
+    ((Nat.Prime.coprime_iff_not_dvd hG.q_prime).mpr
+      (Nat.not_dvd_of_pos_of_lt (Nat.pos_of_ne_zero he0) he)).symm
+  obtain ⟨y, hy⟩ := Int.mod_coprime hcop
+  rw [hqa] at hy
+  refine ⟨(hc + (c - c') * y) % C.q, Int.emod_nonneg _ (ne_of_gt hq), Int.emod_lt_of_pos _ hq, ?_⟩
+  rw [com_eq hC hlog, com_eq hC hlog]
+  apply (g_zpow_eq_iff (G := grp C) hG _ _).mpr
+  change c' + e * ((hc + (c - c') * y) % C.q) ≡ c + e * hc [ZMOD C.q]
+  have h1 : (hc + (c - c') * y) % C.q ≡ hc + (c - c') * y [ZMOD C.q] := Int.mod_modEq _ _
+  have h2 : c' + e * (hc + (c - c') * y) = c' + e * hc + (c - c') * (e * y) := by ring
+  have h3 : c + e * hc = c' + e * hc + (c - c') * 1 := by ring
+  calc c' + e * ((hc + (c - c') * y) % C.q)
+      ≡ c' + e * (hc + (c - c') * y) [ZMOD C.q] := (h1.mul_left _).add_left _
+    _ = c' + e * hc + (c - c') * (e * y) := h2
+    _ ≡ c' + e * hc + (c - c') * 1 [ZMOD C.q] := (hy.mul_left _).add_left _
+    _ = c + e * hc := h3.symm
 
 /-- non-vacuity: the CRS `p = 23, q = 11, g = 2, h = 3` is valid, and a concrete honest run -/
 example : ValidCrs ⟨23, 11, 2, 3⟩ := by
-  sorry
+  have hG : ValidGroup (grp ⟨23, 11, 2, 3⟩) :=
+    ⟨by decide, by decide, by norm_num [grp], by norm_num [grp], by decide, by decide, by decide,
+      by decide⟩
+  have := fact_prime hG
+  refine ⟨hG, by norm_num, by norm_num, ?_⟩
+  rw [← toF_pow, ← toF_one (G := grp ⟨23, 11, 2, 3⟩), toF_eq_iff hG]
+  decide
 
 example : (flipTwoParty ⟨23, 11, 2, 3⟩ 4 7 [some 8, some 9, some 2]).toOption.map (·.result) =
     some (some 2) := by
-  sorry
+  decide +kernel
 
 end Tmcg.CoinProofs
